@@ -90,6 +90,20 @@ def scoping_programs(tier, rnd):
     add("shadow-method-name-by-loop-var", prog([iter_(["F"], lst(num(7), num(8)), [disp(var("F"))]), disp(call("F")), ex(num(0))], funcs=[func("F", [], [ret(num(4))])]))
     add("shadow-method-name-by-yield", prog([ex(call("G", y="F")), disp(var("F")), ex(num(0))], funcs=[func("F", [], [ret(num(4))]), func("G", [], [ret(num(6))])]))
     add("shadow-method-name-top-level", prog([decl("F", num(2)), disp(var("F")), ex(num(0))], funcs=[func("F", [], [ret(num(4))])]))
+    # 令： blocks - every line keeps its own kind (= or 恒为), in any order
+    import itertools
+    for pat in itertools.product([False, True], repeat=3):
+        if not any(pat): continue
+        names = ["P1", "P2", "P3"]
+        blk_ = declblock(*[(n, num(10 + j), c) for j, (n, c) in enumerate(zip(names, pat))])
+        for j, n in enumerate(names):
+            add("declblock-%s-assign-%s" % ("".join("c" if c else "v" for c in pat), n),
+                prog([blk_, disp(*[var(x) for x in names]), ex(asg(var(n), num(99))), disp(var(n)), ex(num(0))]))
+    add("declblock-redeclare", prog([declblock(("P1", num(1), False), ("P1", num(2), True)), mark("dead")]))
+    add("declblock-multi-names", prog([declblock((["P1", "P2"], lst(num(1)), True), ("P3", num(3), False)), ex(asg(var("P3"), num(4))), disp(var("P1"), var("P2"), var("P3")),
+                                       ex(asg(var("P2"), num(5))), mark("dead")]))
+    add("declblock-in-method", prog([disp(call("F")), ex(num(0))], funcs=[func("F", [], [declblock(("P1", num(1), False), ("P2", num(2), True)), ex(asg(var("P1"), num(3))),
+                                                                                       ex(asg(var("P2"), num(4))), ret(num(0))], [catch("@exc", [ret(var("P1"))])])]))
     add("program-input-const", prog([disp(var("IN1"), var("IN2")), ex(asg(var("IN2"), num(9))), mark("dead")], inputs=["IN1", "IN2"]))
     return P
 
